@@ -34,7 +34,7 @@ import (
 // is C02's obligation); helper functions are deterministic in their argument bytes.
 
 func init() {
-	register(&Rule{ID: "R13.3", Props: []string{"C13", "C16"}, Floor: 42,
+	register(&Rule{ID: "R13.3", Props: []string{"C13", "C16", "C01"}, Floor: 42,
 		Doc: "probe/parser agreement per wire type: the success condition of the typed decoder ParseValue dispatches to refutes every rejection guard of the DecodeTypeSize arm, and both report the same size (canonical read positions, linear entailment)",
 		Run: runR13_3})
 }
